@@ -12,7 +12,9 @@ pub const INTS: &[&[u8]] = &[b"0", b"1", b"-1", b"5", b"9223372036854775807", b"
 pub const IDX: &[&[u8]] = &[b"0", b"1", b"-1", b"2", b"-2", b"3", b"-3", b"5", b"-5", b"100", b"-100",
     b"9223372036854775807", b"-9223372036854775808", b"x", b"4", b"-4", b"-6", b"6"];
 pub const OFFS: &[&[u8]] = &[b"0", b"1", b"3", b"10", b"536870913", b"18446744073709551615", b"-1", b"7", b"abc", b"536870912"];
-pub const TTLS: &[&[u8]] = &[b"100", b"1000", b"18446744073709551615", b"9223372036854775807", b"abc", b"-1", b"", b"100000"];
+// only long time-to-lives: with PX / PSETEX the values are milliseconds, and a history may take more
+// than 100 ms of real time on a loaded machine while the model clock stands still (no SLEEP ops here)
+pub const TTLS: &[&[u8]] = &[b"100000", b"1000000", b"18446744073709551615", b"9223372036854775807", b"abc", b"-1", b"", b"200000"];
 pub const PATTERNS: &[&[u8]] = &[b"*", b"k*", b"k?", b"?1", b"[kl]*", b"k[1-2]", b"[^k]*", b"*1", b"\\k1", b"k\\*", b"", b"*:*", b"k[", b"**1", b"*?*"];
 
 pub const WITH_OTHER_TYPES: bool = true;
